@@ -10,10 +10,11 @@
      - [search]           sort.Search (Go standard library), literally;
      - [chunk_for_offset] estargz/estargz.go  Reader.ChunkEntryForOffset (memory metadata store:
                           metadata/memory/reader.go file.ChunkEntryForOffset returns its ChunkOffset/ChunkSize);
-     - [read_loop]        fs/reader/reader.go  file.ReadAt: per-chunk assembly of a read, with the cache and the
-                          underlying (decompressing) reader as parameters.
+     - [read_loop]        fs/reader/reader.go  file.ReadAt (working tree: with the "chunk must contain the offset"
+                          guard): per-chunk assembly of a read, with the cache, the underlying (decompressing)
+                          reader and the interference of the rest of the system as parameters.
 
-   Interface for other models: [chunk], [table], [key], [cache], [read_loop] (parameters: [lookup], [under]),
+   Interface for other models: [chunk], [table], [key], [cache], [read_loop] (parameters: [lookup], [under], [env]),
    [slice].  Numbers that come from the TOC are [Z]; a Go slice expression is a partial operation ([RPanic]). *)
 From Coq Require Import List ZArith Bool Arith.
 Import ListNotations.
@@ -120,6 +121,11 @@ Section ReadLoop.
   (* sf.fr.ReadAt(ip, chunkOffset), len(ip) = chunkSize: [None] = error; the cache argument/result accounts for
      the pre-reader of estargz fileReader.ReadAt, which may insert neighbouring chunks into the cache *)
   Variable under : cache -> chunk -> option (bytes * cache).
+  (* interference: what the rest of the system (other readers, prefetch, background fetch, eviction) does to the
+     cache at the two points of an iteration where this call is not inside a cache operation: before the probe
+     ([true]) and between the read of the underlying file and the insertion ([false]); the first argument numbers
+     the iterations. The identity when the call runs alone. *)
+  Variable env : nat -> bool -> cache -> cache.
 
   (* one call of file.ReadAt(p, offset) with len(p) = cap(p) = plen; [nr] bytes already produced in [acc] *)
   Fixpoint read_loop (fuel : nat) (c : cache) (offset plen nr : Z) (acc : bytes) (tr : list ev)
@@ -127,6 +133,7 @@ Section ReadLoop.
     match fuel with
     | O => (ROutOfFuel, c, tr)
     | S fu =>
+        let c := env fu true c in
         if nr <? plen then
           match lookup (offset + nr) with
           | None => (ROk acc, c, tr)
@@ -159,7 +166,7 @@ Section ReadLoop.
                     else match under c ch with
                          | None => (RErr, c, tr1)
                          | Some (d, c1) =>
-                             if zlen d =? cs then read_loop fu (cadd c1 k d) offset plen (nr + cs) (acc ++ d) tr1
+                             if zlen d =? cs then read_loop fu (cadd (env fu false c1) k d) offset plen (nr + cs) (acc ++ d) tr1
                              else (RShortUnder, c1, tr1)
                          end
                   else
@@ -169,7 +176,7 @@ Section ReadLoop.
                          | None => (RErr, c, tr1)
                          | Some (d, c1) =>
                              if zlen d =? cs then
-                               let c2 := cadd c1 k d in
+                               let c2 := cadd (env fu false c1) k d in
                                (* ip[lowerDiscard : chunkSize-upperDiscard] *)
                                if lower >? cs - upper then (RPanic, c2, tr1)
                                else
@@ -222,8 +229,13 @@ Definition under_layer (L : layer) (i : nat) (c : cache) (ch : chunk) : option (
   Some (slice (c_off ch) (c_size ch) (f_data (file_at L i)),
         add_honest L c (mates_of (f_mates (file_at L i)) (c_off ch))).
 
+(* one read with arbitrary interference between its iterations *)
+Definition read_file_env (L : layer) (i : nat) (env : nat -> bool -> cache -> cache) (c : cache) (off len : Z) : rres * cache * list ev :=
+  read_at i (chunk_for_offset (f_table (file_at L i))) (under_layer L i) env c off len.
+
+(* one read running alone *)
 Definition read_file (L : layer) (i : nat) (c : cache) (off len : Z) : rres * cache * list ev :=
-  read_at i (chunk_for_offset (f_table (file_at L i))) (under_layer L i) c off len.
+  read_file_env L i (fun _ _ c => c) c off len.
 
 (* every (id, chunk) key of the layer, as the prefetch walk (VerifiableReader.Cache: nr += chunkSize) enumerates them *)
 Fixpoint walk_chunks (fuel : nat) (t : table) (i : nat) (nr size : Z) : list key :=
